@@ -120,11 +120,11 @@ def run_scripts(ctx, drv, scripts, tf):
 # every event kind the trace specification has an action for; anything else in a trace is an error of the machinery
 ENDSTATE_EVENTS = {"reset", "hostile", "msg", "l-call", "l-pcall", "l-result", "app-return", "shutdown", "close", "close-returned",
                    "transport-closed", "done", "view", "end", "app-start", "app-cancelled", "reported", "fault", "quiesce", "quiesce-refs", "l-bootstrap",
-                   "l-handle", "l-release", "peer-deliver", "peer-echo", "held", "hold-expired", "released", "l-cancel",
+                   "l-handle", "l-release", "peer-deliver", "peer-echo", "held", "hold-expired", "released", "l-cancel", "policy",
                    # events the end-state specification deliberately has no action for (their presence is the violation)
                    "send-after-close", "close-hung", "not-done"}
 KNOWN_EVENTS = {"reset", "msg", "app-start", "app-return", "app-cancelled", "shutdown", "l-handle", "l-release", "l-result", "l-bootstrap",
-                "l-call", "l-pcall", "held", "hold-expired", "released", "l-cancel", "reported", "fault", "transport-closed", "done", "end", "peer-deliver", "peer-echo", "view",
+                "l-call", "l-pcall", "held", "hold-expired", "released", "l-cancel", "policy", "reported", "fault", "transport-closed", "done", "end", "peer-deliver", "peer-echo", "view",
                 "quiesce", "quiesce-refs", "close", "close-returned"}
 MAX_REJECTED = 60
 
